@@ -140,6 +140,13 @@ def _analyze_expression(
     if not np.issubdtype(scalar_type, np.complexfloating):
         expression = ufl.algorithms.remove_complex_nodes.remove_complex_nodes(expression)
 
+    # An expression must be linear in its argument (if any), as the
+    # integrand of a form must be: terms without the argument would
+    # otherwise be dropped silently when the argument is factored out
+    ufl.algorithms.check_arities.check_integrand_arity(
+        expression, ufl.algorithms.extract_arguments(expression)
+    )
+
     return expression
 
 
